@@ -391,6 +391,14 @@ def main():
                     extra = set(axioms[full]) - ALLOWED_AXIOMS
                     if extra:
                         machinery_errors.append("theorem %s uses axioms %s" % (full, sorted(extra)))
+        if proof_ok and modules and tier == "thorough":
+            # independent re-check of the compiled proofs by the toolchain's leanchecker
+            for m in modules:
+                rc, out = sh(["lake", "env", "leanchecker", m], cwd=LEAN, timeout=3000)
+                if rc != 0:
+                    machinery_errors.append("leanchecker rejected %s: %s" % (m, out[-300:]))
+                else:
+                    notes.append("leanchecker re-checked %s" % m)
     else:
         rc, out = sh(["lake", "build", "nbdrv"], cwd=LEAN, timeout=3000)
         if rc != 0:
